@@ -246,6 +246,8 @@ def gen(seed, world=1, profile='c03', ntasks=None, rep_pct=0, nested=False, dont
                     if read_pct and rng.randrange(100) < read_pct:
                         s.add_task(tp, [(g, R, 0)], place=rng.randrange(world))       # a reader after the last writer
         # ---- end of round: flushes, waits, check
+        if profile == 'c17' and rng.randrange(2):
+            s.ops.append(('pause', rng.choice([20, 50, 150])))      # let the inserted tasks finish first: the flush then meets completed last users
         last = rd == rounds - 1
         flushed = []
         for tp in range(ntp):
